@@ -12,6 +12,7 @@ import (
 	"path/filepath"
 	"runtime/pprof"
 	"strconv"
+	"strings"
 	"sync"
 	"syscall"
 	"time"
@@ -172,7 +173,11 @@ func RunChildLines(c *Ctx, name string, arg interface{}, timeout time.Duration, 
 	argf := filepath.Join(dir, "arg.json")
 	b, _ := json.Marshal(arg)
 	ioutil.WriteFile(argf, b, 0644)
-	cmd := exec.Command(os.Args[0], "child", name, argf, dir)
+	bin := os.Args[0]
+	if nb := os.Getenv("VERIF_NORACE_BIN"); nb != "" && strings.HasSuffix(name, "long") {
+		bin = nb // bulk stages run in the uninstrumented twin of this worker
+	}
+	cmd := exec.Command(bin, "child", name, argf, dir)
 	cmd.Env = append(os.Environ(), env...)
 	var so, se bytes.Buffer
 	cmd.Stderr = &se
